@@ -141,7 +141,7 @@ def check_coords(tu, c, st, case):
     pre = [T(x) for x in gen.PRELUDE.split()]
     toks = pre + [T(t.s, t.line) for t in rend.toks]
     laid = lay_out(toks, c, style="random", marker_p=0.1)
-    files = ("f.c", "g.h", "dir/h.h", "a b.c")
+    files = ("f.c", "g.h", "dir/h.h", "a b.c", "")
     out = parse_outcome(laid.text, "f.c", files)
     st.evaluations += 1
     if out[0] != "ast":
@@ -167,7 +167,7 @@ _LOC = re.compile(r"^(.*?):(\d+):(\d+): ")
 def check_errors(toks, c, st, case):
     n = len(toks)
     positions = list(range(n + 1)) if n <= 80 else sorted({c.int(0, n) for _ in range(40)})
-    files = ("f.c", "g.h", "dir/h.h", "a b.c")
+    files = ("f.c", "g.h", "dir/h.h", "a b.c", "")
     for i in positions:
         inj = INJECT_EXACT[(i + len(toks)) % len(INJECT_EXACT)] if n > 25 else None
         for s in [inj] if inj else INJECT_EXACT:
@@ -246,7 +246,7 @@ def replay(subcheck, case):
     pre = [T(x) for x in pp_tokens(gen.PRELUDE)]
     toks = pre + [T(t.s, t.line) for t in rend.toks]
     if subcheck == "error-location":
-        out = parse_outcome(text, "f.c", ("f.c", "g.h", "dir/h.h", "a b.c"))
+        out = parse_outcome(text, "f.c", ("f.c", "g.h", "dir/h.h", "a b.c", ""))
         pos = positions_in(text)
         if out[0] != "perr":
             fail(subcheck, case, text, "not rejected with ParseError", "illegal-not-rejected")
@@ -269,7 +269,7 @@ def replay(subcheck, case):
         from ..runner import HarnessError
 
         raise HarnessError("C11 replay: the stored text does not tokenise to the model's tokens")
-    out = parse_outcome(text, "f.c", ("f.c", "g.h", "dir/h.h", "a b.c"))
+    out = parse_outcome(text, "f.c", ("f.c", "g.h", "dir/h.h", "a b.c", ""))
     if out[0] != "ast":
         return
     exp = M.Expect(ann=True).unit(tu)
